@@ -3,7 +3,8 @@ EXTENDS JobRun, Json
 F2 == {"f1.txt", "f2.bin"}
 Pool == {[named |-> TRUE, rc |-> 0, writes |-> {}], [named |-> FALSE, rc |-> 0, writes |-> {"f1.txt"}],
          [named |-> TRUE, rc |-> 3, writes |-> {"f2.bin"}], [named |-> TRUE, rc |-> 0, writes |-> {"f1.txt", "f2.bin"}],
-         [named |-> FALSE, rc |-> 1, writes |-> {}]}
+         [named |-> FALSE, rc |-> 1, writes |-> {}],
+         [named |-> TRUE, rc |-> 137, writes |-> {"f1.txt"}]}     \* rc 137: the command is killed by a signal (kill -9 $$)
 DevNone == {}
 DevContinue == {"ContinueAfterFailure"}
 DevExitF == {"ExitIgnoresFailure"}
